@@ -438,6 +438,7 @@ type caseIn struct {
 	A streamSpec `json:"a"`
 	B streamSpec `json:"b"`
 	Big bool `json:"big"` // do not echo payloads (Go-side predicate only)
+	Pre int  `json:"pre"` // udpgate: datagrams that leave alone through a timed flush before the stalled one
 }
 
 type udpObs struct {
@@ -517,6 +518,7 @@ type caseOut struct {
 	Want    []string `json:"want,omitempty"`   // rt mode: datagrams completely encoded before the cut
 	T       *tcpObs  `json:"t,omitempty"`
 	R       *realObs `json:"r,omitempty"` // udpreal / vconn modes
+	G       *gateObs `json:"g,omitempty"` // udpgate mode
 }
 
 func (o *caseOut) fail(key, format string, a ...interface{}) {
@@ -842,6 +844,8 @@ func runCase(raw json.RawMessage) interface{} {
 		runUDPRealCase(&c, out)
 	case "vconn":
 		runVConnCase(&c, out)
+	case "udpgate":
+		runUDPGateCase(&c, out)
 	default:
 		panic("bad mode " + c.Mode)
 	}
